@@ -9,7 +9,11 @@ Inductive case :=
 | Bat (cap tg : N) (ps : list prop) (impl_batches : list (list N * N))
 (* the same, plus the real Execute: per signed batch its members and the session ids it ran under *)
 | Ses (mid : string) (cap tg : N) (ps : list prop) (impl_batches : list (list N * N))
-      (impl_sessions : list (list N * list string)).
+      (impl_sessions : list (list N * list string))
+(* the real Execute under the schedule in which the dispatch loop runs ahead of the batch goroutines
+   (GOMAXPROCS(1), ProposalsHash fails at once): the member lists handed to hashing/signing, in
+   canonical order *)
+| Hsh (cap tg : N) (ps : list prop) (impl_batches : list (list N * N)) (impl_hashed : list (list N)).
 
 Fixpoint obs_eqb (a b : list (list N * N)) : bool :=
   match a, b with
@@ -21,18 +25,33 @@ Fixpoint obs_eqb (a b : list (list N * N)) : bool :=
 Definition model_sessions (mid : string) (bs : list batch) : list (list N * list string) :=
   map (fun e => (map pid (fst e), [snd e])) (sessions mid bs).
 
+Fixpoint hashed_eqb (a b : list (list N)) : bool :=
+  match a, b with
+  | [], [] => true
+  | x :: a', y :: b' => list_N_eqb x y && hashed_eqb a' b'
+  | _, _ => false
+  end.
+
+(* what must be hashed (each exactly once): the non-empty batches *)
+Definition hashed_spec (obs : list (list N * N)) : list (list N) :=
+  map (fun ib => fst (snd ib)) (signed_from (@fst (list N) N) 0 obs).
+
 Definition agree (c : case) : bool :=
   match c with
   | Bat cap tg ps obs => obs_eqb (map obs_of (batches cap tg ps)) obs
   | Ses mid cap tg ps obs sess =>
       obs_eqb (map obs_of (batches cap tg ps)) obs
       && sess_eqb (model_sessions mid (batches cap tg ps)) sess
+  | Hsh cap tg ps obs hs =>
+      obs_eqb (map obs_of (batches cap tg ps)) obs
+      && hashed_eqb (hashed_spec (map obs_of (batches cap tg ps))) hs
   end.
 
 Definition judge (c : case) : bool :=
   match c with
   | Bat cap tg ps obs => spec_ok cap tg ps obs
   | Ses mid cap tg ps obs sess => spec_ok cap tg ps obs && sess_ok mid obs sess
+  | Hsh cap tg ps obs hs => spec_ok cap tg ps obs && hashed_eqb (hashed_spec obs) hs
   end.
 
 (* branch tag: 0 nothing pending | 1 one batch | 2 roll-over, no overflow | 3 overflow; +4 session *)
@@ -46,6 +65,7 @@ Definition tag (c : case) : N :=
   match c with
   | Bat cap tg ps _ => t cap tg ps
   | Ses _ cap tg ps _ _ => 4 + t cap tg ps
+  | Hsh cap tg ps _ _ => 8 + t cap tg ps
   end.
 
 Definition check_all := check_cases agree judge tag.
